@@ -169,6 +169,8 @@ impl Compiler {
     //@  ensures final(self).break_stack@.len() == old(self).break_stack@.len() + 1 && final(self).break_stack@.last()@.len() == 0
     //@  ensures final(self).break_stack@.subrange(0, old(self).break_stack@.len() as int) == old(self).break_stack@
     //@  ensures same_compiler_but_loops(*old(self), *final(self))
+    //@  ensures breaks_ok(*old(self)) ==> breaks_ok(*final(self))
+    //@  at body.end proof { assert(forall|i: int| 0 <= i < old(self).break_stack@.len() ==> self.break_stack@[i] == self.break_stack@.subrange(0, old(self).break_stack@.len() as int)[i]); }
     //@end
 
     //@fn file=yarel/src/compiler.rs path=Compiler::push_break ret=r
@@ -302,7 +304,7 @@ pub uninterp spec fn opcode_byte(op: OpCode) -> u8;
 fn opcode_u8(op: OpCode) -> (r: u8) ensures r == opcode_byte(op) { op as u8 }
 
 spec fn locals_same_shape(a: Seq<Local>, b: Seq<Local>) -> bool {
-    a.len() == b.len() && forall|i: int| 0 <= i < a.len() ==> (#[trigger] a[i]).name == b[i].name && a[i].depth == b[i].depth
+    a.len() == b.len() && forall|i: int| #![trigger a[i]] #![trigger b[i]] 0 <= i < a.len() ==> a[i].name == b[i].name && a[i].depth == b[i].depth
 }
 
 spec fn same_compiler_but_locals(a: Compiler, b: Compiler) -> bool {
@@ -536,6 +538,7 @@ impl Parser {
             final(self).cur().locals@.len() >= old(self).cur().locals@.len(),
             locals_same_shape(old(self).cur().locals@, final(self).cur().locals@.subrange(0, old(self).cur().locals@.len() as int)),
             all_initialised(old(self).cur().locals@) ==> all_initialised(final(self).cur().locals@),
+            breaks_ok(old(self).cur()) ==> breaks_ok(final(self).cur()),
             final(self).cur().scope_depth == old(self).cur().scope_depth,
             final(self).cur().loop_stack@ == old(self).cur().loop_stack@, final(self).cur().break_stack@ == old(self).cur().break_stack@,
     { unimplemented!() }
@@ -792,6 +795,32 @@ impl Parser {
     //@  at loop1.start let ghost before = self.compilers@; let ghost cidx = current + it.index@; let ghost idx_in = index;
     //@  at loop1.end proof { let after = self.compilers@; assert(cidx == compiler); if it.index@ > 0 { lemma_chain_frame(before, after, cidx - 1, idx_in as int, enclosing as int, i0 as int); } }
     //@  before_stmt "return Some(index)" proof { assert(capture_ok(cs0, self.compilers@, enclosing as int, i0 as int, index as int, nm)); assert(cs0 == old(self).compilers@ && nm == name.source@); assert(captured_somewhere(old(self).compilers@, self.compilers@, index as int, name.source@)); }
+    //@end
+    // for: both hidden values the loop header leaves on the operand stack (loop variable, iterator) must own a local
+    // slot, otherwise every later local of the function is addressed one slot off (or the program must be rejected).
+    //@fn file=yarel/src/compiler.rs path=Parser::for_statement props=C04
+    //@  subst "OpCode::Nil as u8" => "opcode_u8(OpCode::Nil)"
+    //@  subst "OpCode::IterNext as u8" => "opcode_u8(OpCode::IterNext)"
+    //@  subst "OpCode::SetLocal as u8" => "opcode_u8(OpCode::SetLocal)"
+    //@  subst "OpCode::Pop as u8" => "opcode_u8(OpCode::Pop)"
+    //@  subst ".expect(\"Expected usize.\")" => ".unwrap()"
+    //@  requires old(self).pwf(), 0 <= old(self).pushed, old(self).cur().locals@.len() >= 1, all_initialised(old(self).cur().locals@)
+    //@  requires old(self).cur().scope_depth < 0x7fff_ffff, old(self).code().len() < 0x1000_0000_0000_0000
+    //@  requires old(self).cur().loop_stack@.len() == old(self).cur().break_stack@.len(), breaks_ok(old(self).cur())
+    //@  ensures final(self).pwf(), old(self).has_error() ==> final(self).has_error()
+    //@  assert @hidden_values_own_slots before_stmt "self.compiler_mut().push_loop()" self.has_error() || self.cur().locals@.len() == old(self).cur().locals@.len() + 2
+    //@  before_stmt "let (loop_start, _)" proof { assert(all_initialised(self.cur().locals@)); assert(breaks_ok(self.cur())); }
+    //@  at body.start let ghost l0 = self.cur().locals@; let ghost n0 = self.cur().locals@.len() as int;
+    //@  after_stmt "self.declare_variable()" let ghost l1 = self.cur().locals@; proof { assert(forall|j: int| 0 <= j < n0 ==> l1[j] == l1.subrange(0, n0)[j]); assert(forall|j: int| 0 <= j < n0 ==> (#[trigger] l1[j]).depth.is_some()); }
+    //@  after_stmt "self.expression()" let ghost l2 = self.cur().locals@; proof { assert(forall|j: int| 0 <= j < n0 ==> (#[trigger] l2[j]).depth.is_some()); }
+    //@  after_stmt "self.compiler_mut().mark_initialised(" let ghost l3 = self.cur().locals@; proof { assert(all_initialised(l3)); }
+    //@  before_stmt "let iter_method_name" let ghost l4 = self.cur().locals@; proof { assert(forall|j: int| 0 <= j < l3.len() ==> l4[j] == l4.subrange(0, l3.len() as int)[j]); assert(forall|j: int| 0 <= j < l4.len() - 1 ==> (#[trigger] l4[j]).depth.is_some()); assert(l4.len() >= 1); }
+    //@  before_stmt "self.emit_loop(loop_start)" proof { assert(all_initialised(self.cur().locals@)); assert(breaks_ok(self.cur())); }
+    //@  after_stmt "self.compiler_mut().push_loop()" proof { assert(breaks_ok(self.cur())); }
+    //@  before_stmt "self.block()" proof { assert(breaks_ok(self.cur())); }
+    //@  before_stmt "self.patch_jump(exit_jump)" proof { assert(breaks_ok(self.cur())); }
+    //@  before_stmt "match self.compiler_mut().pop_loop()" proof { assert(breaks_ok(self.cur())); }
+    //@  after_stmt "self.block()" proof { lemma_drop_count_le(self.cur().locals@, (self.cur().scope_depth - 1) as usize); }
     //@end
 }
 
